@@ -108,7 +108,8 @@ def tlc(
         shutil.rmtree(meta)
     meta.mkdir(parents=True)
     w = str(NCPU if workers == "auto" else workers)
-    java = ["java", "-XX:+UseParallelGC", f"-Xmx{heap}"]
+    # deep recursion over large sets (trace validation of big images) needs a large thread stack
+    java = ["java", "-XX:+UseParallelGC", f"-Xmx{heap}", "-Xss1g"]
     if dfs_queue:
         java.append("-Dtlc2.tool.queue.IStateQueue=StateDeque")
     cmd = java + [
